@@ -15,6 +15,7 @@
 //! `k > BITS(exponent)` is outside the quantifier (index panic) and is never generated.
 
 mod gens;
+mod model;
 pub mod moduli;
 
 use crypto_bigint::modular::{
@@ -30,7 +31,7 @@ use vmodel::*;
 pub fn spec() -> PropSpec {
     PropSpec {
         id: "C09",
-        rule: "cases: odd modulus m (classes 1, 3, 2^B-1, 2^(B-1)+1, ~R/3, ~R/4, small prime, zero high limbs, 2^B-c, top-limb edge, random odd, R/4<=m<R/2, chosen leading-zero count 0..=63+, m>=R/2; 17 compile-time moduli) x base in {0, 1, m-1, (m+1)/2, m-2, random<m, value>=m for fixed-width new} x exponent shapes {0, 1, 2^j, all-ones, K, P, T, L, U, sparse windows, repeated nibble} of a width equal / narrower / wider than the base x bit bound k in 0..=BITS(exponent) (boundary list 0,1,3,4,5,63,64,65,BITS-1,BITS; neighbourhoods of multiples of 4 and 64; bitlen(e)+-1; uniform; every k for the allk sub-checks); multi-exponentiation with 1..=5 terms (array and slice forms); lincomb with 1..=40 terms, term count biased to j*2^lz+{-1,0,1}, residues biased to m-1. Each case runs every API form (inherent, PowBoundedExp, Pow, MultiExponentiate(BoundedExp), Monty-generic, const/dyn/boxed conversions) against one BigUint oracle value and requires retrieve()==oracle and as_montgomery()<m. non-trivial: pow / multi-exp: (some) base mod m not in {0,1} AND (k%4 != 0 OR k > 64 OR e mod 2^k has >= 2 non-zero 4-bit windows) [allk sub-checks: base mod m not in {0,1} AND e != 0, every k is run]; lincomb: term count > 2^min(lz,63) (more than one accumulation window) OR (>= 2 terms AND exact sum of products >= m). distinct by (m, bases, exponents, k) resp. (m, all terms).",
+        rule: "cases: odd modulus m (classes 1, 3, 2^B-1, 2^(B-1)+1, ~R/3, ~R/4, small prime, zero high limbs, 2^B-c, top-limb edge, random odd, R/4<=m<R/2, chosen leading-zero count 0..=63+, m>=R/2; 17 compile-time moduli) x base in {0, 1, m-1, (m+1)/2, m-2, random<m, value>=m for fixed-width new} x exponent shapes {0, 1, 2^j, all-ones, K, P, T, L, U, sparse windows, repeated nibble} of a width equal / narrower / wider than the base x bit bound k in 0..=BITS(exponent) (boundary list 0,1,3,4,5,63,64,65,BITS-1,BITS; neighbourhoods of multiples of 4 and 64; bitlen(e)+-1; uniform; every k for the allk sub-checks); multi-exponentiation with 1..=5 terms (array and slice forms); lincomb with 1..=40 terms, term count biased to j*2^lz+{-1,0,1}, residues biased to m-1; boxed pow-double-reduction: m in [0.42R,0.495R], 12-bit exponent found by an oracle-side model search of the almost-Montgomery ladder so that the accumulator leaves the loop >= 2m. Each case runs every API form (inherent, PowBoundedExp, Pow, MultiExponentiate(BoundedExp), Monty-generic, const/dyn/boxed conversions) against one BigUint oracle value and requires retrieve()==oracle and as_montgomery()<m. non-trivial: pow / multi-exp: (some) base mod m not in {0,1} AND (k%4 != 0 OR k > 64 OR e mod 2^k has >= 2 non-zero 4-bit windows) [allk sub-checks: base mod m not in {0,1} AND e != 0, every k is run]; pow-double-reduction: the model search found an exponent with final accumulator >= 2m; lincomb: term count > 2^min(lz,63) (more than one accumulation window) OR (>= 2 terms AND exact sum of products >= m). distinct by (m, bases, exponents, k) resp. (m, all terms).",
         assumptions: vec![
             "num-bigint modpow / mul / rem are correct (independent implementation)".into(),
             "bridging uses from_words/as_words only; moduli enter through Odd::new / impl_modulus!".into(),
@@ -754,6 +755,56 @@ fn boxed_lincomb(max: usize) -> impl Fn(&mut Tape, &mut Case) -> CaseResult {
     }
 }
 
+/// Directed search (oracle-side model of the almost-Montgomery ladder, see `model.rs`) for inputs
+/// on which the boxed accumulator leaves the loop at or above 2m, so that the *second* final
+/// conditional subtraction is needed: m in about [0.42 R, 0.495 R], three exponent windows, the
+/// last one selecting the largest table entry.
+fn boxed_pow_double_reduction(max: usize) -> impl Fn(&mut Tape, &mut Case) -> CaseResult {
+    move |t, c| {
+        let n = match t.weighted(&[6, 2, 1]) {
+            0 => t.usize_in(1, 4),
+            1 => t.usize_in(5, 9),
+            _ => t.usize_in(10, max),
+        };
+        let mut ml = t.expand(n);
+        ml[n - 1] = t.range(0x6B85_1EB8_51EB_851F, 0x7EB8_51EB_851E_B851);
+        ml[0] |= 1;
+        let m = big(&ml);
+        let base = big(&t.expand(n + 1)) % &m;
+        let x_mont = (&base << (64 * n)) % &m;
+        let amm = model::Amm::new(&m, n);
+        let (off1, off2) = (t.below(15), t.below(16));
+        let (e, found) = amm.search_double_reduction(&x_mont, off1, off2);
+        let en = match t.weighted(&[2, 1, 1]) {
+            0 => 1,
+            1 => 2,
+            _ => n,
+        };
+        let mut el = vec![0u64; en];
+        el[0] = e;
+        let k = 12u64;
+        c.limbs("m", &ml);
+        c.limbs("base", &limbs_of(&base, n));
+        c.limbs("exponent", &el);
+        c.num("exponent_bits", k);
+        c.label(if found { "model: boxed accumulator >= 2m after the loop (second final subtraction needed)" } else { "model: accumulator >= 2m not reached" });
+        c.label(if n <= 4 { "boxed 1..=4 limbs" } else if n <= 16 { "boxed 5..=16 limbs" } else { "boxed 17 limbs" });
+        c.nontrivial(found);
+        let x = Expect::new(&m, opow(&base, &big(&el), k, &m), n, false);
+        let mut v = Verd::default();
+        boxed_pow_forms(&mut v, &x, &ml, &base, &el, k as u32, false, true)?;
+        // the same exponent with every bound that still covers its 12 bits and one that cuts it
+        let bparams = total("BoxedMontyParams::new", || BoxedMontyParams::new(odd_b(&ml)))?;
+        let bx = total("BoxedMontyForm::new", || BoxedMontyForm::new(b_of(&base, n), bparams))?;
+        let be = boxed(&el);
+        for k2 in [11u64, 13, 16, 64 * en as u64] {
+            let x2 = Expect::new(&m, opow(&base, &big(&el), k2, &m), n, false);
+            v.boxed(&format!("BoxedMontyForm::pow_bounded_exp(k={k2})"), &x2, || bx.pow_bounded_exp(&be, k2 as u32))?;
+        }
+        v.finish()
+    }
+}
+
 // ------------------------------------------------------------------------------------------------
 
 macro_rules! dyn_pow {
@@ -794,34 +845,35 @@ macro_rules! const_mod {
 fn subchecks(_ctx: &Ctx) -> Vec<SubCheck> {
     let mut v = vec![];
     dyn_pow!(v;
-        (1, 2, 1, 6000), (1, 2, 2, 4000), (1, 2, 4, 2000),
-        (2, 4, 1, 4000), (2, 4, 2, 4000), (2, 4, 3, 2000),
-        (4, 8, 1, 2000), (4, 8, 4, 2500), (4, 8, 8, 1000),
-        (8, 16, 2, 1000), (8, 16, 8, 800),
-        (16, 32, 4, 500), (16, 32, 16, 300), (2, 4, 16, 500));
-    dyn_allk!(v; (1, 1, 1500), (1, 2, 800), (2, 1, 1200), (2, 2, 800), (4, 1, 600), (4, 2, 400), (8, 2, 150), (16, 1, 100));
-    dyn_multi!(v; (1, 1, 4000), (1, 2, 2000), (2, 2, 2500), (4, 1, 1500), (4, 4, 1500), (8, 8, 400), (16, 4, 300), (16, 16, 100));
-    dyn_lincomb!(v; (1, 12000), (2, 10000), (4, 8000), (8, 4000), (16, 2000));
+        (1, 2, 1, 24000), (1, 2, 2, 16000), (1, 2, 4, 8000),
+        (2, 4, 1, 16000), (2, 4, 2, 16000), (2, 4, 3, 8000),
+        (4, 8, 1, 8000), (4, 8, 4, 10000), (4, 8, 8, 4000),
+        (8, 16, 2, 4000), (8, 16, 8, 3200),
+        (16, 32, 4, 2000), (16, 32, 16, 1200), (2, 4, 16, 2000));
+    dyn_allk!(v; (1, 1, 4500), (1, 2, 2400), (2, 1, 3600), (2, 2, 2400), (4, 1, 1800), (4, 2, 1200), (8, 2, 450), (16, 1, 300));
+    dyn_multi!(v; (1, 1, 16000), (1, 2, 8000), (2, 2, 10000), (4, 1, 6000), (4, 4, 6000), (8, 8, 1600), (16, 4, 1200), (16, 16, 400));
+    dyn_lincomb!(v; (1, 48000), (2, 40000), (4, 32000), (8, 16000), (16, 8000));
     const_mod!(v;
-        (M64One, 1, 1, 1000, 500, 300),
-        (M64Three, 1, 2, 2000, 800, 800),
-        (M64Max, 1, 1, 2500, 1000, 2000),
-        (M64HalfP1, 1, 1, 2500, 1000, 2000),
-        (M64Third, 1, 1, 2500, 1000, 2000),
-        (M64Lz3, 1, 1, 2000, 800, 2000),
-        (M128HalfP1, 2, 2, 2000, 800, 1500),
-        (M128ZeroHigh, 2, 1, 2000, 800, 1000),
-        (M128Lz2, 2, 3, 1500, 600, 2000),
-        (M256P256Order, 4, 4, 1500, 600, 1500),
-        (M256Lz1, 4, 4, 1200, 500, 2000),
-        (M256Lz5, 4, 2, 1500, 500, 2000),
-        (M256Rand, 4, 5, 1000, 400, 1000),
-        (M512Third, 8, 8, 500, 200, 1000),
-        (M512Max, 8, 1, 1000, 300, 1000),
-        (M1024Rand, 16, 16, 200, 60, 600),
-        (M1024QuarterP1, 16, 2, 400, 150, 600));
-    v.push(SubCheck::new("boxed/pow/1..=17", 6000, boxed_pow(17)).tape(2 * (2 * 17 + 18 + 50)));
-    v.push(SubCheck::new("boxed/pow-allk/1..=17", 1200, boxed_allk(17)).tape(2 * (2 * 17 + 2 + 50)).thorough(10));
-    v.push(SubCheck::new("boxed/lincomb/1..=17", 8000, boxed_lincomb(17)).tape(2 * (17 + 30 + 40 * 6)));
+        (M64One, 1, 1, 300, 150, 100),
+        (M64Three, 1, 2, 6000, 2400, 2400),
+        (M64Max, 1, 1, 7500, 3000, 6000),
+        (M64HalfP1, 1, 1, 7500, 3000, 6000),
+        (M64Third, 1, 1, 7500, 3000, 6000),
+        (M64Lz3, 1, 1, 6000, 2400, 6000),
+        (M128HalfP1, 2, 2, 6000, 2400, 4500),
+        (M128ZeroHigh, 2, 1, 6000, 2400, 3000),
+        (M128Lz2, 2, 3, 4500, 1800, 6000),
+        (M256P256Order, 4, 4, 4500, 1800, 4500),
+        (M256Lz1, 4, 4, 3600, 1500, 6000),
+        (M256Lz5, 4, 2, 4500, 1500, 6000),
+        (M256Rand, 4, 5, 3000, 1200, 3000),
+        (M512Third, 8, 8, 1500, 600, 3000),
+        (M512Max, 8, 1, 3000, 900, 3000),
+        (M1024Rand, 16, 16, 600, 180, 1800),
+        (M1024QuarterP1, 16, 2, 1200, 450, 1800));
+    v.push(SubCheck::new("boxed/pow/1..=17", 24000, boxed_pow(17)).tape(2 * (2 * 17 + 18 + 50)));
+    v.push(SubCheck::new("boxed/pow-allk/1..=17", 3600, boxed_allk(17)).tape(2 * (2 * 17 + 2 + 50)).thorough(10));
+    v.push(SubCheck::new("boxed/lincomb/1..=17", 30000, boxed_lincomb(17)).tape(2 * (17 + 30 + 40 * 6)));
+    v.push(SubCheck::new("boxed/pow-double-reduction/1..=17", 6000, boxed_pow_double_reduction(17)).tape(24).thorough(10));
     v
 }
